@@ -111,8 +111,13 @@ def run_e1_unit(prop, unit, tier, out, known, workdir, tus):
     def job(v):
         return tu.query(entry, v, unit['unwind'], timeout=timeout, object_bits=unit.get('object_bits', 12), extra=unit.get('cbmc_extra', ()))
 
-    with ThreadPoolExecutor(max_workers=e1.NJOBS) as ex:
+    with ThreadPoolExecutor(max_workers=min(e1.NJOBS, unit.get('jobs', e1.NJOBS))) as ex:
         results = list(ex.map(job, vecs))
+    # a query that was killed long before its time limit fell victim to memory pressure (many large queries side by side): once more, one at a time
+    for i, r in enumerate(results):
+        if r['status'] == 'killed':
+            results[i] = job(vecs[i])
+            if results[i]['status'] == 'killed': results[i]['status'] = 'timeout'
     urec['wall_s'] = round(time.time() - t0, 1)
     nontrivial = 0
     viol_groups = {}
@@ -143,6 +148,7 @@ def run_e1_unit(prop, unit, tier, out, known, workdir, tus):
             viol_groups.setdefault(f['desc'], []).append(r)
     out.cov['distinct_nontrivial'] += nontrivial
     urec['witness_reached'] = nontrivial
+    urec['max_rss_mb'] = max([r.get('rss_mb', 0) for r in results] or [0])
     urec['sat_backend'] = 'CaDiCaL (cbmc --sat-solver cadical)' if 'cadical' in unit.get('cbmc_extra', ()) else 'MiniSat 2.2.1 (cbmc default); %d quer%s decided by CaDiCaL after a MiniSat time-out' % (sum(1 for r in results if 'cadical' in r.get('sat_backend', '')), 'y' if sum(1 for r in results if 'cadical' in r.get('sat_backend', '')) == 1 else 'ies')
     urec['decided'] = n_done
     if results:
